@@ -249,6 +249,9 @@ impl<'tcx> Cx<'tcx> {
                 o.put("k", J::s("bytes"));
                 if let Some(bytes) = self.read_alloc(alloc_id, offset.bytes(), ty) {
                     o.put("hex", J::s(bytes));
+                    if let Some(fl) = self.field_layout(ty, 0) {
+                        o.put("fields", fl);
+                    }
                 } else if let Some(items) = self.read_str_array(alloc_id, offset.bytes(), ty) {
                     // `[&str; N]`: the strings themselves
                     o.put("k", J::s("strs"));
@@ -340,6 +343,33 @@ impl<'tcx> Cx<'tcx> {
         let arr = Ty::new_array(tcx, elem, len);
         let hex = self.read_alloc(prov.alloc_id(), poff, arr)?;
         Some((tystr(arr), hex))
+    }
+
+    /// offsets and types of the fields of a tuple / single-variant struct constant (so that its bytes can be taken apart)
+    fn field_layout(&self, ty: Ty<'tcx>, depth: usize) -> Option<J> {
+        let tcx = self.tcx;
+        if depth > 3 {
+            return None;
+        }
+        let ftys: Vec<Ty<'tcx>> = match ty.kind() {
+            ty::Tuple(ts) if !ts.is_empty() => ts.iter().collect(),
+            ty::Adt(def, args) if def.is_struct() => def.non_enum_variant().fields.iter().map(|f| f.ty(tcx, args)).collect(),
+            _ => return None,
+        };
+        let layout = tcx.layout_of(TypingEnv::fully_monomorphized().as_query_input(ty)).ok()?;
+        let mut out = Vec::new();
+        for (i, fty) in ftys.iter().enumerate() {
+            let fl = tcx.layout_of(TypingEnv::fully_monomorphized().as_query_input(*fty)).ok()?;
+            let mut fo = J::obj()
+                .set("off", J::Int(layout.fields.offset(i).bytes() as i128))
+                .set("size", J::Int(fl.size.bytes() as i128))
+                .set("ty", J::s(tystr(*fty)));
+            if let Some(inner) = self.field_layout(*fty, depth + 1) {
+                fo.put("fields", inner);
+            }
+            out.push(fo);
+        }
+        Some(J::Arr(out))
     }
 
     fn read_alloc(&self, alloc_id: mir::interpret::AllocId, offset: u64, ty: Ty<'tcx>) -> Option<String> {
